@@ -89,7 +89,7 @@ def norm(src):
 # target forms the property says are "always rendered rather than dropped"; for every other form
 # (walrus / arithmetic in a subscript, keyword call, slice) varname may legitimately be None
 SUPPORTED = {"name", "attr", "sub", "subname", "tuple", "star", "call_sub", "nested_attr", "list", "nested_unpack",
-             "star_mid"}
+             "star_mid", "sub_chain", "attr_sub", "call_args", "star_first", "tuple_attr_sub", "global_name"}
 
 
 def varname_ok(varname, meta, m, frame):
@@ -517,6 +517,28 @@ def kwget(k=0):
     return S.dct
 
 
+def pick(d, a, b):
+    return d[a]
+
+
+def _all_items(stmts):
+    for s_ in stmts:
+        if not isinstance(s_, dict):
+            continue
+        if s_.get("t") == "with":
+            for it in s_["items"]:
+                yield it
+        for key in ("body", "orelse", "final"):
+            for x in _all_items(s_.get(key) or []):
+                yield x
+        for h in s_.get("handlers") or []:
+            for x in _all_items(h["body"]):
+                yield x
+        for c in s_.get("cases") or []:
+            for x in _all_items(c):
+                yield x
+
+
 def tick(c, i):
     # while-loop condition: true at most twice, and only if c[i]
     n = S.ticks.get(i, 0)
@@ -556,6 +578,18 @@ class R:
             return "lst[1:2]", "(7,)"
         if form == "call_sub":
             return "dct.get('sub')['k%d']" % k, None
+        if form == "sub_chain":
+            return "grid[0][1]", None
+        if form == "attr_sub":
+            return "ns.sub.slots[key]", None
+        if form == "call_args":
+            return "pick(dct, 'sub', key)['k%d']" % k, None
+        if form == "star_first":
+            return "(*r%d, t%d)" % (k, k), "(1, 2, 3)"
+        if form == "tuple_attr_sub":
+            return "(ns.p%d, dct['q%d'])" % (k, k), "(1, 2)"
+        if form == "global_name":
+            return "GV", None
         if form == "tuple":
             return "(p%d, q%d)" % (k, k), "(1, 2)"
         if form == "list":
@@ -733,7 +767,10 @@ class R:
             self.emit(1, "s = 'A' * 400")
             self.emit(1, "big = [%s]" % ", ".join("s[%d]" % i for i in range(300)))
         self.emit(1, "FR.append(sys._getframe())")
-        self.emit(1, "ns = NS(); ns.sub = NS(); dct = S.dct; key = 'kk'; lst = [0, 1, 2, 3]")
+        if any(it.get("target") == "global_name" for it in _all_items(self.p["body"])):
+            self.emit(1, "global GV")
+        self.emit(1, "ns = NS(); ns.sub = NS(); ns.sub.slots = {}; dct = S.dct; key = 'kk'; lst = [0, 1, 2, 3]; "
+                     "grid = [[0, 0], [0, 0]]")
         self.block(self.p["body"], 1)
         if self.kind in ("gen", "agen"):
             self.emit(1, "yield ['end', 0]")
@@ -879,7 +916,8 @@ def compile_program(prog):
     fname = "<g1-prog>"
     linecache.cache[fname] = (len(src), None, src.splitlines(True), fname)
     ns = {"M": M, "AM": AM, "MAlias": MAlias, "AMAlias": AMAlias, "MDeco": MDeco, "AMDeco": AMDeco, "E1": E1, "E2": E2, "NS": NS, "trap": trap, "probe": probe, "noop": noop,
-          "FR": S.fr, "sys": sys, "tick": tick, "S": S, "kwget": kwget, "__name__": "g1prog"}
+          "FR": S.fr, "sys": sys, "tick": tick, "S": S, "kwget": kwget, "pick": pick, "GV": None,
+          "__name__": "g1prog"}
     with warnings.catch_warnings():
         warnings.simplefilter("ignore")  # SyntaxWarning: 'return' in a 'finally' block etc.
         code = compile(src, fname, "exec")
@@ -890,6 +928,10 @@ def compile_program(prog):
 def run_program(prog, modes, extract_at=None, repeat=1, inject=None):
     global S
     S = State()
+    if prog.get("deep", 0) >= 19 and PY >= (3, 12):
+        # the CPython 3.12.1 *compiler* itself crashes (SIGSEGV) when a function nests 19-20 with blocks (reproduced without
+        # stackscope); such programs are only run on 3.9-3.11
+        return {"obs": [], "stats": {"skipped.deep19plus_on_3.12": 1}, "trace": [], "result": None, "events": []}
     S.modes = tuple(modes)
     if inject:
         S.inject_points, S.inject_max, S.inject_phase = inject
